@@ -72,7 +72,7 @@ def notForHead : List Tok → Bool
   | _ => true
 
 def coreName : CName → Bool
-  | .plain n => plainVar n
+  | .plain n => nameVar n
   | .compound n idx => isPlainRun n.toList && !idx.isEmpty && coreIdx idx
 
 def coreFor (vs : List IterVar) (its : List PExp) : Bool :=
